@@ -43,6 +43,7 @@ def draw_cfg(st):
     cfg["w_reenter"] = 1 + st.choose(3, "reenter4")
     cfg["w_plain_gen"] = st.choose(3, "plaingen4")
     cfg["extractors"] = []
+    cfg["join_after_scope"] = True
     cfg["act_styles"] = [i for i in range(len(P.ACT_STYLES)) if i in (0, 1, 2, 3, 8) or st.choose(2, "style4")]
     w = list(cfg["w_ops"])
     w[0] = 3
